@@ -1,8 +1,79 @@
 /-
-  C04 — property theorems (see DESIGN.md §6 C04).  Helper lemmas live in Proofs/.
+  C04 — evaluation never panics into the host: every failure is a returned error (see DESIGN.md §6 C04).
+
+  In the model every evaluator function returns a `Res`: a value, an error (`Err.lisp` — a LispError with
+  its payload — or `Err.plain` — another Go error), or `oof` (the model's fuel ran out: not an outcome of
+  the Go program).  There is no fourth outcome: the Go panics that the unrepaired code let escape are
+  modelled, after the repairs (D1, D3, D6, D7), as ordinary `Res.err` returns — that the real code agrees
+  is what the differential engines of this property check.  The theorems below show that those errors are
+  ordinary lisp errors: `try`/`catch` handles every one of them.
+  Standard side conditions: no debugger, context not cancelled, `try` not shadowed by a macro.
+  Property theorems only; proofs in Proofs/EvalTry.lean.
 -/
 import LispModel.Eval
+import LispModel.Proofs.EvalTry
 namespace LispModel.Props.C04
-open LispModel
+open LispModel LispModel.Core LispModel.Proofs.EvalCancel LispModel.Proofs.EvalTry
+
+/-- EVAL returns either a value or an error (or the model runs out of fuel): exactly three outcomes. -/
+theorem eval_outcomes_total (F : Nat) (st : State) (env : Nat) (ast : Val) (d : Nat) :
+    (∃ v, (eval F st env ast d).1 = .ok v) ∨ (∃ e, (eval F st env ast d).1 = .err e) ∨
+      (eval F st env ast d).1 = .oof := by
+  cases (eval F st env ast d).1 <;> simp
+
+/-- Every such error is an ordinary lisp error that try/catch can handle: for EVERY form `ast`, if its
+    evaluation as the body of a try (after the try form's poll, one EVAL frame deeper) returns an error `e`
+    — whatever its origin: malformed special form, wrong argument count or type, a builtin's Go error or
+    recovered panic, `throw` — then `(try ast (catch x :caught))` returns the keyword `:caught`; the final
+    state is the failing run's state plus the handler scope `x ↦ payload of e` and the handler's poll. -/
+theorem errors_are_catchable (st : State) (hs : st.stepper = none) (hc : st.cancelAt = none) (env : Nat)
+    (hm : NotMacro st env "try") (x : String) (hx : x ≠ "&") (F : Nat) (ast : Val) (d : Nat) (e : Err) (s1 : State)
+    (h : eval (F + 3) (tick st) env ast (d + 1) = (.err e, s1)) :
+    eval (F + 7) st env (tryCatchForm ast x) d =
+      (.ok (Val.kw "caught"), tick (s1.newScope env [(x, caughtValue e)]).1) :=
+  Proofs.EvalTry.errors_are_catchable hs hc hm hx F ast d e s1 h
+
+/-- Malformed special forms are errors, for all operands:
+    `(fn)`; `(def <non-symbol> v)` for every `v` that evaluates; `(let <odd bindings> …)`;
+    a call of a closure with a non-symbol parameter such as `((fn (1) 2) 3)`; `(try x (catch))`. -/
+theorem malformed_special_forms_are_errors (st : State) (hl : Live st) (env : Nat) (F : Nat) (p pos : Option Pos)
+    (d : Nat) :
+    (NotMacro st env "fn" → ∃ e, evalLoop (F + 2) st env (.list [.sym "fn" p] pos) d = (.err e, tick st)) ∧
+    (NotMacro st env "def" → ∀ a1 a2 rest res s1, (∀ s q, a1 ≠ .sym s q) →
+      eval (F + 1) (tick st) env a2 (d + 1) = (.ok res, s1) →
+      ∃ e, evalLoop (F + 2) st env (.list (.sym "def" p :: a1 :: a2 :: rest) pos) d = (.err e, s1)) ∧
+    (NotMacro st env "let" → ∀ a1 rest arr, seqOf? a1 = some arr → arr.length % 2 ≠ 0 →
+      ∃ e, evalLoop (F + 2) st env (.list (.sym "let" p :: a1 :: rest) pos) d =
+        (.err e, ((tick st).newScope env []).1)) ∧
+    (∀ bad ps pp body fenv m fp args ast, (∀ s q, bad ≠ .sym s q) →
+      ∃ e, callArm F st (.fn (.list (bad :: ps) pp) body fenv m fp :: args) ast d = (.err e, st)) ∧
+    (NotMacro st env "try" → ∀ x q cargs cp, cargs.length ≤ 1 →
+      ∃ e, evalLoop (F + 2) st env (.list [.sym "try" p, x, .list (.sym "catch" q :: cargs) cp] pos) d =
+        (.err e, tick st)) :=
+  ⟨fun hm => ⟨_, fn_without_params hl hm F p pos d⟩,
+   fun hm a1 a2 rest res s1 ha h => ⟨_, def_non_symbol hl hm F p a1 a2 rest pos d ha res s1 h⟩,
+   fun hm a1 rest arr ha hodd => ⟨_, let_odd_bindings hl hm F p a1 rest pos d arr ha hodd⟩,
+   fun bad ps pp body fenv m fp args ast hbad => ⟨_, call_non_symbol_param F st bad ps pp body fenv m fp args ast d hbad⟩,
+   fun hm x q cargs cp hshort => ⟨_, try_short_catch hl hm F p x q cargs cp pos d hshort⟩⟩
+
+/-! ### non-vacuity: concrete malformed programs on `initState`, each caught by try/catch -/
+
+private def sy (s : String) : Val := .sym s none
+private def ls (xs : List Val) : Val := .list xs none
+private def caught (ast : Val) : Bool :=
+  match (eval 200 initState 0 (tryCatchForm ast "e") 0).1 with
+  | .ok v => (match v with | .str s => s == (Val.kw "caught" |> fun | .str t => t | _ => "") | _ => false)
+  | _ => false
+private def fails (ast : Val) : Bool := (eval 200 initState 0 ast 0).1 matches .err _
+
+/-- `(fn)`, `(def 1 2)`, `(let (a) a)`, `((fn (1) 2) 3)`, `(try 1 (catch))`, `(+ 1 "a")`, `(nth [] 5)`,
+    `(undefined-symbol)`, `(1 2)`, `(throw 1)`: each is an error, each is caught. -/
+example :
+    let progs : List Val := [
+      ls [sy "fn"], ls [sy "def", .int 1, .int 2], ls [sy "let", ls [sy "a"], sy "a"],
+      ls [ls [sy "fn", ls [.int 1], .int 2], .int 3], ls [sy "try", .int 1, ls [sy "catch"]],
+      ls [sy "+", .int 1, .str "a"], ls [sy "nth", .vec [] none, .int 5], ls [sy "undefined-symbol"],
+      ls [.int 1, .int 2], ls [sy "throw", .int 1]]
+    (progs.all fails && progs.all caught) = true := by decide +kernel
 
 end LispModel.Props.C04
